@@ -515,6 +515,17 @@ def rule_exec_test_agreement(ctx, rep, rid: str) -> None:
                     continue
                 lst.append((f"{region}:{kind}", " and ".join(flagconds) or "<unconditional>"))
         conds[name] = lst
+    # both methods delegating to one shared helper agree by construction
+    def delegate(name: str):
+        m = facade.methods.get(name)
+        calls = [c for c in m.own_nodes() if isinstance(c, ast.Call) and isinstance(c.func, ast.Attribute) and norm(c.func.value) == "self" and c.func.attr in facade.methods and c.func.attr not in ("_create_vm",)]
+        return calls[0].func.attr if len(calls) == 1 and not conds[name] else None
+
+    d_exec, d_test = delegate("exec"), delegate("test")
+    if d_exec is not None and d_exec == d_test:
+        rep.ok(rid, "RegExp.exec/test:shared-step", {"helper": d_exec})
+        rep.ok(rid, "RegExp.exec/test:shared-step:reset", {"helper": d_exec})
+        return
     keys = sorted({k for lst in conds.values() for k, _ in lst})
     for k in keys:
         a = sorted({c for kk, c in conds["exec"] if kk == k})
@@ -672,3 +683,74 @@ def rule_snapshot_ownership(ctx, rep, rid: str) -> None:
             rep.bad(rid, key, f"{f.qual}: {bad[1]}", f"{f.module.rel}:{bad[0].lineno}")
         else:
             rep.ok(rid, key, {"snapshots": len(snaps), "depths": sorted({d for _, _, d, _ in snaps}), "in_place_slot_writes_that_can_touch_it": len(inplace_f)})
+
+
+# ---- C20-R4/R5: empty matches in exec/test and in split ------------------------------------------------
+def rule_lastindex_is_match_end(ctx, rep, rid: str) -> None:
+    """exec/test leave lastIndex at index + length of the match, also for an empty match: stepping over an empty
+    match (AdvanceStringIndex) belongs to match/replace/split, not to exec."""
+    rep.rule(rid, "where exec/test of the regex facade advance lastIndex after a match, the new value is the end of the match for every match length (no `+ 1` arm for the empty match)", floor=1)
+    facade = ctx.tree.mod("regex.regex").classes["RegExp"]
+    n = 0
+    for m in facade.all_methods:
+        for a in m.own_nodes():
+            if not isinstance(a, ast.Assign):
+                continue
+            tg = norm(a.targets[0])
+            if tg not in ("self.lastIndex", "end_cp", "end"):
+                continue
+            v = a.value
+            txt = norm(v)
+            if "result.index" not in txt and ".index" not in txt:
+                continue
+            n += 1
+            key = f"{m.qual}:{tg} = {short(v, 40)}"
+            plus_one = any(isinstance(x, ast.BinOp) and isinstance(x.op, ast.Add) and isinstance(x.right, ast.Constant) and x.right.value == 1 and ".index" in norm(x.left) for x in ast.walk(v))
+            # a later `x += 1` under an emptiness test is the same slip
+            later = any(isinstance(x, ast.AugAssign) and norm(x.target) == tg and isinstance(x.op, ast.Add) and norm(x.value) == "1" for x in m.own_nodes())
+            if plus_one or later:
+                rep.bad(rid, key, f"{m.qual} puts lastIndex one past the index of an empty match: /a*/g.exec('b') leaves lastIndex at 1, ECMAScript at 0 (the end of the match); the script's own loops over exec then skip a position", f"{m.module.rel}:{a.lineno}")
+            else:
+                rep.ok(rid, key)
+    if n < 1:
+        raise AnalysisError("lastIndex advances of RegExp.exec/test not found")
+
+
+def rule_split_separator_discipline(ctx, rep, rid: str) -> None:
+    """String.prototype.split with a regex (ECMAScript SplitMatcher loop): only matches that start inside the string
+    are separators, an empty match at the end of the previous piece separates nothing, and the empty string splits
+    into no pieces when the separator matches it."""
+    rep.rule(rid, "the regex branch of split searches only while the position is inside the string, skips a match that ends where the previous piece ended, and treats the empty subject separately", floor=3)
+    f = next((g for g in ctx.tree.funcs if g.name == "split" and g.parent is not None and g.parent.name == "_make_string_method"), None)
+    if f is None:
+        raise AnalysisError("string split native not found")
+    loops = [n for n in f.own_nodes() if isinstance(n, ast.While) and any(isinstance(c, ast.Call) and isinstance(c.func, ast.Attribute) and c.func.attr in ("search", "match") for c in ast.walk(n))]
+    if not loops:
+        raise AnalysisError("split: the matcher loop was not found")
+    loop = loops[0]
+    # (1) strictly inside the string
+    t = norm(loop.test).replace(" ", "")
+    key = f"{f.qual}:loop-bound"
+    inside = any(isinstance(c, ast.Compare) and isinstance(c.ops[0], ast.Lt) and "len(s)" in norm(c.comparators[0]) for c in ast.walk(loop.test)) or any(isinstance(i, ast.If) and ">=len(s)" in norm(i.test).replace(" ", "") and i.body and isinstance(i.body[-1], ast.Break) for i in loop.body)
+    if inside:
+        rep.ok(rid, key)
+    else:
+        rep.bad(rid, key, f"the split loop runs while `{norm(loop.test)}`: a match that starts at the end of the string (an empty one) is taken for a separator and appends an empty piece ('abc'.split(/x*/) ends with '')", f"{f.module.rel}:{loop.lineno}")
+    # (2) empty match at the previous end is skipped
+    key = f"{f.qual}:empty-match-at-previous-end"
+    prev = {a.targets[0].id for a in f.own_nodes() if isinstance(a, ast.Assign) and isinstance(a.targets[0], ast.Name) and isinstance(a.value, ast.Constant) and a.value.value == 0 and a.lineno < loop.lineno}
+    skip = False
+    for i in ast.walk(loop):
+        if isinstance(i, ast.If) and isinstance(i.test, ast.Compare) and isinstance(i.test.ops[0], ast.Eq) and any(isinstance(x, ast.Name) and x.id in prev for x in ast.walk(i.test)) and i.body and isinstance(i.body[-1], ast.Continue):
+            skip = True
+    if skip:
+        rep.ok(rid, key)
+    else:
+        rep.bad(rid, key, "the split loop takes every match for a separator: an empty match where the previous piece ended yields empty pieces ('abc'.split(/x*/) starts with '', 'abc'.split(/b*/) is ['', 'a', '', 'c', ''])", f"{f.module.rel}:{loop.lineno}")
+    # (3) empty subject
+    key = f"{f.qual}:empty-subject"
+    txt = " ; ".join(norm(x) for x in f.own_nodes() if isinstance(x, ast.If))
+    if "if s or " in txt or "if not s" in txt or "len(s) == 0" in txt or "s == ''" in txt:
+        rep.ok(rid, key)
+    else:
+        rep.bad(rid, key, "split does not treat the empty subject separately: ''.split(/x*/) must be [] when the separator matches the empty string", f.loc)
